@@ -267,7 +267,7 @@ def run_experiments(acc):
             for lo in range(0, n, exp["chunk"]):
                 jobs.append((eid, which, lo, min(n, lo + exp["chunk"])))
     # longest first
-    jobs.sort(key=lambda j: -(j[3] - j[2]) * (1 if T.get(EXPERIMENTS[j[0]]["name"]).small else 400 * T.get(EXPERIMENTS[j[0]]["name"]).ref.esize // 32))
+    jobs.sort(key=lambda j: -(j[3] - j[2]) * (1 if T.hint(EXPERIMENTS[j[0]]["name"]).small else 400 * T.hint(EXPERIMENTS[j[0]]["name"]).ref.esize // 32))
     res = core.pmap(_eval_job, jobs)
     keys = {}
     for eid, which, out, n in res:
@@ -506,7 +506,7 @@ def run(tier, seed):
             for flavour in ("AB", "SS"):
                 tasks.append(("params", (name, other, tier, vsel, flavour)))
     weight = {"config": 1, "params": 2}
-    tasks.sort(key=lambda t: -weight[t[0]] * (T.get(t[1][0]).ref.esize if T.try_get(t[1][0])[0] else 1))
+    tasks.sort(key=lambda t: -weight[t[0]] * (T.hint(t[1][0]).ref.esize if T.try_get(t[1][0])[0] else 1))
     core.pmerge(_dispatch, tasks, acc)
     return acc
 
@@ -527,3 +527,6 @@ def replay(rec):
     if k1 is not None and k1 == k2:
         return ["ok", k1]
     return ["differ-or-raise", k1, k2]
+
+
+_eval_job.returns_tuple = True
